@@ -95,7 +95,7 @@ func H_Codec_RoundTrip() {
 		g3, ok3 := parseJSON(rm)
 		vx.Assert(ok3 && refEqualOrdered(g3, doc), "C17/rawmessage-keeps-value-and-order")
 		vx.Assert(noRawHTML(rm), "C17/rawmessage-escaped")
-		vx.Assert(vx.EqBytes(rm, srm), "C17/rawmessage-same-bytes-as-stdlib")
+		vx.Assert(vx.EqBytes(normBF(rm), normBF(srm)), "C17/rawmessage-same-bytes-as-stdlib")
 	}
 	// (b) Compact / Indent / HTMLEscape keep the value and the member order
 	var cb, ib, hb bytes.Buffer
@@ -138,6 +138,32 @@ func H_Codec_RoundTrip() {
 		vx.Reach("codec/object")
 	}
 	vx.Reach("codec/roundtrip-end")
+}
+
+
+// normBF normalises the spelling of U+0008 and U+000C, which differs between Go releases (short escapes in the
+// standard library of this toolchain, \u00XX in the fork): the property says it is normalised before comparing.
+func normBF(b []byte) []byte {
+	var out []byte
+	for i := 0; i < len(b); i++ {
+		if b[i] == '\\' && i+1 < len(b) {
+			if b[i+1] == 'u' && i+5 < len(b) && b[i+2] == '0' && b[i+3] == '0' && b[i+4] == '0' && (b[i+5] == '8' || b[i+5] == 'c' || b[i+5] == 'C') {
+				if b[i+5] == '8' {
+					out = append(out, '\\', 'b')
+				} else {
+					out = append(out, '\\', 'f')
+				}
+				i += 5
+				continue
+			}
+			// any other escape: copy both bytes so that an escaped backslash is not read as the start of an escape
+			out = append(out, b[i], b[i+1])
+			i++
+			continue
+		}
+		out = append(out, b[i])
+	}
+	return out
 }
 
 type tagged struct {
@@ -223,7 +249,7 @@ func H_Codec_Differential() {
 	if ea != nil || eb != nil {
 		return
 	}
-	vx.Assert(vx.EqBytes(a, b), "C17/marshal-same-bytes-as-stdlib")
+	vx.Assert(vx.EqBytes(normBF(a), normBF(b)), "C17/marshal-same-bytes-as-stdlib")
 	// decode what was encoded, with both codecs, into the same kind of destination
 	switch val.(type) {
 	case tagged, *tagged:
@@ -234,7 +260,7 @@ func H_Codec_Differential() {
 		if e1 == nil && e2 == nil {
 			ra, _ := stdjson.Marshal(x)
 			rb, _ := stdjson.Marshal(y)
-			vx.Assert(vx.EqBytes(ra, rb), "C17/unmarshal-struct-same-as-stdlib")
+			vx.Assert(vx.EqBytes(normBF(ra), normBF(rb)), "C17/unmarshal-struct-same-as-stdlib")
 			vx.Assert(vx.EqStr(x.Name, y.Name) && x.Num == y.Num && x.Flag == y.Flag && vx.EqStr(x.E, y.E) && vx.EqStr(x.Opt, y.Opt), "C17/unmarshal-struct-fields-same-as-stdlib")
 		}
 	default:
@@ -247,7 +273,7 @@ func H_Codec_Differential() {
 			// with its own codec: the literals are small integers, spelled alike by both)
 			ra, _ := json.Marshal(x)
 			rb, _ := stdjson.Marshal(y)
-			vx.Assert(vx.EqBytes(ra, rb), "C17/unmarshal-any-same-as-stdlib")
+			vx.Assert(vx.EqBytes(normBF(ra), normBF(rb)), "C17/unmarshal-any-same-as-stdlib")
 		}
 	}
 	vx.Reach("codec/differential-end")
@@ -294,7 +320,7 @@ func H_Codec_Stream() {
 	// same values as the standard library (each re-encoded by its own codec: Number types differ)
 	ra, _ := json.Marshal(a1)
 	rb, _ := stdjson.Marshal(b1)
-	vx.Assert(vx.EqBytes(ra, rb), "C17/stream-decode-same-as-stdlib")
+	vx.Assert(vx.EqBytes(normBF(ra), normBF(rb)), "C17/stream-decode-same-as-stdlib")
 	// what the Encoder wrote reads back as the two values, one per line
 	out := fa.Bytes()
 	nl := -1
